@@ -86,15 +86,16 @@ def monitor(case):
         if kind == 'KDataReady' and g['data'] != data:
             return ('read %s returned %s; the flat byte array in arrival order holds %s'
                     % (k, g['data'], data))
-    # quiescence: the last tick made no progress and the port was empty right after,
-    # and nothing was delivered in between: whatever is unanswered now is lost for good
-    last_tick = max([i for i, e in enumerate(ev) if e['e'] == 'tick'], default=None)
-    if last_tick is not None and ev[last_tick].get('progress') is False:
-        tail = ev[last_tick + 1:]
-        if tail and all(e['e'] == 'r' for e in tail) and tail[-1].get('none'):
+    # quiescence: a retrieval found the port empty and the very next event was a tick
+    # without progress (so the state did not change and the port is still empty);
+    # if nothing is delivered afterwards, whatever is unanswered is lost for good
+    for i in range(len(ev) - 1):
+        if ev[i]['e'] == 'r' and ev[i].get('none') and ev[i + 1]['e'] == 'tick' and ev[i + 1].get('progress') is False \
+                and not any(e['e'] == 'd' and e.get('acc') for e in ev[i + 2:]):
             lost = [k for k in order if k not in seen]
             if lost:
                 return 'requests never answered although the memory is idle: %s' % lost[:8]
+            break
     return None
 
 
@@ -251,6 +252,28 @@ def main(argv):
         rep.violation({'property': PROP, 'what': monitor(out[0]) if out else msg, 'case': out[0] if out else c,
                        'replay_cmd': './check C17 --replay <this file>'}, text=msg)
     elif mism or not okc:
+        # the model no longer describes the code: look harder for an input on which the
+        # real component violates the property itself (monitor only, more seeds)
+        found = None
+        if not replay_file:
+            for extra in range(1, 7):
+                more, _ = run_impl(binary, seed=vlib.seed() + 1000 * extra, n=500)
+                for c in more or []:
+                    m = monitor(c)
+                    if m:
+                        found = (c, m)
+                        break
+                if found:
+                    break
+        if found:
+            c, msg = found
+            small = vlib.ddmin(c['events'], lambda evs: fails_monitor(evs, c))
+            c2 = dict(strip(c))
+            c2['events'] = [{'e': e['e'], **({'msg': e['msg']} if 'msg' in e else {})} for e in small]
+            out, _ = run_impl(binary, cases=[c2])
+            rep.violation({'property': PROP, 'what': monitor(out[0]) if out else msg, 'case': out[0] if out else c,
+                           'replay_cmd': './check C17 --replay <this file>'}, text=msg)
+            return rep.finish()
         i, k = mism[0] if mism else (0, 0)
         rep.violation({'property': PROP, 'broken': 'correspondence between coq/mem/Dram.v and amd/timing/mem/simplebankedmemory: '
                        'observation %d of history %d differs; theorems of props/C17.v no longer speak about this code' % (k, i),
